@@ -334,6 +334,22 @@ def encrypt_assertions(text, cert_file, which=None):
     return doc.text()
 
 
+def encrypt_fragment(fragment, cert_file):
+    """xenc:EncryptedData (bytes) whose plaintext is the given element, encrypted to cert_file - what anybody who knows the addressee's
+    public certificate can produce.  The fragment must carry its own namespace declarations."""
+    if isinstance(fragment, str):
+        fragment = fragment.encode("utf-8")
+    rc, err, out = _run(["--encrypt", "--pubkey-cert-pem", cert_file, "--session-key", "des-192", "--xml-data", "{0}", "--node-xpath", "/*/*[1]"],
+                        ENC_TEMPLATE, [b"<verifwrap>" + fragment + b"</verifwrap>"])
+    if rc != 0 or not out:
+        raise RuntimeError("harness encryption failed: %s" % err)
+    d = Doc(out)
+    kids = d.root.children
+    if len(kids) != 1 or kids[0].tag != (XENC, "EncryptedData"):
+        raise RuntimeError("harness encryption produced %r" % [k.tag for k in kids])
+    return d.standalone(kids[0])
+
+
 def decrypt(text, key_file):
     rc, err, out = _run(["--decrypt", "--privkey-pem", key_file, "--id-attr:ID", "EncryptedKey"], text)
     return rc, err, out
